@@ -189,6 +189,12 @@ class Board:
             ks = diff_keys(exp, got)
             raise Violation('play state disagrees with the laws: ' + ','.join(ks), self.case(),
                             {k: {'got': got[k], 'expected': exp[k]} for k in ks})
+        for o, ob in enumerate(self.obs or ()):
+            got = pub_state(ob)
+            if got != exp:
+                ks = diff_keys(exp, got)
+                raise Violation("single-seat observer's play state disagrees with the laws: " + ','.join(ks), self.case({'observer': A.SEATS[o]}),
+                                {k: {'got': got[k], 'expected': exp[k]} for k in ks})
 
     # -- C05 ------------------------------------------------------------------------------
     def check_conservation(self):
